@@ -7,7 +7,7 @@ CONSTANTS
   UseComp = FALSE
   MaxRx = 2
   AllowDup = FALSE
-  Modes <- Modes_Two
+  Modes <- Modes_Dot
   MaxSys = 1
   MaxOps = 0
   Preds <- Preds_None
